@@ -49,16 +49,19 @@ def outcomes(logic, func, frame=None, boolean=True, depth=2):
             elif e.kind in ('for', 'for0'):
                 it = canon.c(e.node.iter, e.frame)
                 sing = elem_singletons(canon, e.node.iter, e.frame)
+                forms = None
+                if not sing and isinstance(e.node.target, (ast.Tuple, ast.List)):
+                    forms = elem_forms(canon, e.node.iter, e.frame, e.node.target)
                 if e.kind == 'for0':
-                    if sing:
+                    if sing or forms:
                         dead = True      # a collection made of the simulation's singletons is not empty
                         break
                     alts = [a + [Lit('empty(%s)' % it, True)] for a in alts]
                 else:
                     vs = [canon.c(n, e.frame) for n in ast.walk(e.node.target)
                           if isinstance(n, ast.Name)]
-                    loops.append((e.node, vs, it if not sing else ('<each>', sorted(sing)),
-                                  [len(a) for a in alts]))
+                    loops.append((e.node, vs, ('<forms>', forms) if forms else (
+                        it if not sing else ('<each>', sorted(sing))), [len(a) for a in alts]))
             elif e.kind == 'back' and loops and loops[-1][0] is e.node:
                 _, vs, it, starts = loops.pop()
                 alts = [_quantify(a, s, vs, it, 'forall') for a, s in zip(alts, _pad(starts, alts))]
@@ -199,7 +202,16 @@ def _quantify(lits, start, vs, it, q):
     out = list(lits[:start])
     for l in lits[start:]:
         if any(_mentions(l.atom, v) for v in vs):
-            if isinstance(it, tuple) and it[0] == '<each>' and len(vs) == 1 and q == 'forall':
+            if isinstance(it, tuple) and it[0] == '<forms>' and q == 'forall':
+                # every element is one of finitely many known tuples: state the literal for each
+                for form in it[1]:
+                    atom = l.atom
+                    for v, t in form.items():
+                        atom = re.sub(r'(?<![\w#.$])%s(?![\w])' % re.escape(v), t, atom)
+                    out.append(_reorder_eq(Lit(atom, l.pol)))
+            elif isinstance(it, tuple) and it[0] == '<forms>':
+                out.append(Lit('exists %s in <forms>: %r' % (','.join(vs), l), True))
+            elif isinstance(it, tuple) and it[0] == '<each>' and len(vs) == 1 and q == 'forall':
                 # the loop runs over known singleton objects: state the literal for each of them
                 for t in it[1]:
                     atom = re.sub(r'(?<![\w#.$])%s(?![\w])' % re.escape(vs[0]), t, l.atom)
@@ -293,6 +305,48 @@ def elem_singletons(canon, it, frame, _d=0):
                 out |= s
             return out
     return set()
+
+
+def elem_forms(canon, it, frame, target, _d=0):
+    """[{loop variable: canonical string}] when every element of the iterable is one of finitely many
+    tuples whose components do not depend on the element (e.g. (hot.current, hot.total) for every hot
+    tier: the tier is a singleton, so the tuple is the same for each); None otherwise."""
+    from .paths import assigned_names
+    if _d > 6 or frame is None:
+        return None
+    names = [x.id for x in target.elts if isinstance(x, ast.Name)]
+    if len(names) != len(target.elts):
+        return None
+    if isinstance(it, ast.Name):
+        defs = assigned_names(frame.func).get(it.id, [])
+        if len(defs) != 1 or not isinstance(defs[0], ast.Assign) or it.id in frame.func.params:
+            return None
+        from .index import walk_no_nested
+        for n in walk_no_nested(frame.func.node):
+            if isinstance(n, ast.Attribute) and isinstance(n.value, ast.Name) and n.value.id == it.id and n.attr in (
+                    'append', 'extend', 'insert', 'remove', 'pop', 'clear', 'sort', 'reverse'):
+                return None
+        return elem_forms(canon, defs[0].value, frame, target, _d + 1)
+    if isinstance(it, ast.BinOp) and isinstance(it.op, ast.Add):
+        a = elem_forms(canon, it.left, frame, target, _d + 1)
+        b = elem_forms(canon, it.right, frame, target, _d + 1)
+        return a + b if a and b else None
+    if isinstance(it, ast.Call) and isinstance(it.func, ast.Name) and it.func.id in ('list', 'tuple') and len(it.args) == 1:
+        return elem_forms(canon, it.args[0], frame, target, _d + 1)
+    if isinstance(it, (ast.List, ast.Tuple)) and it.elts and all(
+            isinstance(x, ast.Tuple) and len(x.elts) == len(names) for x in it.elts):
+        return [{n: canon.c(v, frame) for n, v in zip(names, x.elts)} for x in it.elts]
+    if isinstance(it, (ast.ListComp, ast.GeneratorExp)) and len(it.generators) == 1 and not it.generators[0].ifs \
+            and isinstance(it.elt, ast.Tuple) and len(it.elt.elts) == len(names):
+        bound = {x.id for x in ast.walk(it.generators[0].target) if isinstance(x, ast.Name)}
+        form = {}
+        for n, v in zip(names, it.elt.elts):
+            s = canon.c(v, frame)
+            if any(re.search(r'(?<![\w#.$])%s(?![\w])' % re.escape(b), s) for b in bound):
+                return None
+            form[n] = s
+        return [form]
+    return None
 
 
 def contradictory(lits):
